@@ -611,17 +611,41 @@ def c28_extra(rep, tier):
     from vf.common import Ob, SEED
     from contracts import supercell_hist as H
     # (1) every assignment to self.chemorder is a fresh list (no aliasing between rows / with a caller's list)
-    t = time.time(); bad = []
+    #     A local name is followed to its definitions in the same method (whatever it is called); a definite alias (a parameter, a field of
+    #     another object, a row of another list) fails; anything the walk cannot resolve (the result of a helper, say) is UNDECIDED.
+    t = time.time(); bad = []; unknown = []
+    tree, _src = extract.module_ast('onsager/supercell.py')
+    methods = {f.name: f for c_ in ast.walk(tree) if isinstance(c_, ast.ClassDef) and c_.name == 'Supercell' for f in c_.body if isinstance(f, ast.FunctionDef)}
+    def fresh(v, fn, depth=0):
+        """True: a new list of new lists; False: shares storage with something else; None: not resolved"""
+        if isinstance(v, (ast.ListComp, ast.List)): return True
+        if isinstance(v, ast.Call) and ast.unparse(v.func) in ('copy.deepcopy', 'deepcopy'): return True
+        if isinstance(v, ast.Attribute) and ast.unparse(v) == 'self.chemorder': return True          # the object's own (earlier) list, put back
+        if isinstance(v, ast.Attribute) and v.attr == 'chemorder' and isinstance(v.value, ast.Name) and v.value.id != 'self':
+            return True if depth == 0 else False          # `self.chemorder = other.chemorder` is refused below unless it is the swap idiom
+        if isinstance(v, ast.Name) and depth < 3:
+            params = {a.arg for a in fn.args.args}
+            defs = [n.value for n in ast.walk(fn) if isinstance(n, ast.Assign) and any(isinstance(t_, ast.Name) and t_.id == v.id for t_ in n.targets)]
+            tdefs = [n for n in ast.walk(fn) if isinstance(n, ast.Assign) and any(isinstance(t_, ast.Tuple) and any(isinstance(x, ast.Name) and x.id == v.id for x in t_.elts) for t_ in n.targets)]
+            for n in tdefs:
+                for t_ in n.targets:
+                    if isinstance(t_, ast.Tuple) and isinstance(n.value, ast.Tuple) and len(t_.elts) == len(n.value.elts):
+                        defs += [val_ for x, val_ in zip(t_.elts, n.value.elts) if isinstance(x, ast.Name) and x.id == v.id]
+                    else: return None
+            if not defs: return False if v.id in params else None
+            rs = [fresh(d_, fn, depth + 1) for d_ in defs]
+            return False if False in rs else (None if None in rs else True)
+        return None
     for fname, node in extract.class_assignments('onsager/supercell.py', 'Supercell', 'chemorder'):
         val = node.value
         vals = val.elts if isinstance(val, ast.Tuple) else [val]
         for v in vals:
-            if isinstance(v, (ast.ListComp, ast.List)): continue
-            if isinstance(v, ast.Name) and v.id in ('oldorder', 'neworder', 'gorder'): continue
-            if isinstance(v, ast.Attribute) and v.attr == 'chemorder': continue
-            bad.append('%s line %d: %s' % (fname, node.lineno, ast.unparse(node)[:80]))
-    rep.add(Ob('Supercell::chemorder-assignments-are-fresh-lists', 'P', 'fail' if bad else 'ok', 'ast-frame', time.time() - t,
-               '; '.join(bad), witness={'replayed': False, 'signature': 'chemorder-alias'} if bad else None,
+            if isinstance(v, ast.Attribute) and v.attr == 'chemorder': continue          # tuple swap `self.chemorder, x.chemorder = x.chemorder, self.chemorder` / re-binding of the field itself
+            r = fresh(v, methods.get(fname))
+            if r is True: continue
+            (bad if r is False else unknown).append('%s line %d: %s' % (fname, node.lineno, ast.unparse(node)[:80]))
+    rep.add(Ob('Supercell::chemorder-assignments-are-fresh-lists', 'P', 'fail' if bad else ('undecided' if unknown else 'ok'), 'ast-frame', time.time() - t,
+               '; '.join(bad or ['not resolved to a new list: ' + u for u in unknown]), witness={'replayed': False, 'signature': 'chemorder-alias'} if bad else None,
                function='onsager/supercell.py::Supercell'))
     # (2) histories
     cfgs = H.configs(tier)
